@@ -45,7 +45,9 @@ CLAIMED = {
             "Static necessary conditions: the word-keyed dictionary subscript is dominated by the all-terminals guard "
             "on every call path and the full-span cell is defined on the other branch (unknown symbols give False, "
             "not KeyError); CYK only for non-empty words; normalisation of the word; verdict = start symbol in the "
-            "full-span cell. Exactness of CYK is not decided."),
+            "full-span cell; the nullable fixpoint keeps one counter per production, started at the number of registered "
+            "occurrences; Variable / Terminal equality is symmetric (sibling __eq__ agreement). Exactness of CYK is "
+            "not decided."),
     "C09": ("phase-order and dependence analysis over tagged fixpoint results + cache-coherence pairing + fresh-name "
             "rules",
             "Static necessary conditions: generating-before-reachable ordering with reachability computed on the "
@@ -82,10 +84,11 @@ CLAIMED = {
             "look-ahead, .get lookups, FIRST fill over all productions, accumulating cells, verdict reads every cell, "
             "re-queue on growth. Equality with the textbook FIRST/FOLLOW sets is not decided."),
     "C15": ("ownership analysis of parse trees in the Earley steps + commit-on-success dominance + dependence analysis of "
-            "CYK nodes + documented exception classes",
+            "CYK nodes + documented exception classes + sibling agreement of the derivation listings",
             "Static necessary conditions: chart states never share a mutable tree, children assigned only after a "
-            "successful expansion, CYK nodes carry both back-pointers, documented refusal exceptions. The derivation "
-            "listings are not decided."),
+            "successful expansion, CYK nodes carry both back-pointers, documented refusal exceptions, the leftmost and "
+            "rightmost derivation listings extend the rewritten part by the same case analysis (mirror-sibling "
+            "agreement). That the listed forms are the derivation is not decided beyond that agreement."),
     "C16": ("role-flow dependence analysis of the transducer constructions + forbidden-flow rule + pop-time marking "
             "pattern + fresh-name totality",
             "Static necessary conditions: star has the loop-back edge and no skip edge, union / concatenate take the "
